@@ -114,6 +114,10 @@ func checkC05(c *Ctx, r *Report) {
 			r.ok("R5.6", "modbus.BuilderRequest.ExtractFields", fmt.Sprintf("extraction (%d functions reachable) neither writes the response payload nor keeps decoder state", len(t.funcs)), "-", true)
 		}
 	}
+	// R5.12: every field is reported exactly once however often and in whatever order requests
+	// are built from one builder
+	builderReadOnly(c, r, "R5.12")
+	r.floor("R5.12", 8)
 	r.assumption("devices answer as the specification requires; decoding correctness of the accessors is C04")
 }
 
@@ -774,7 +778,11 @@ func checkC06(c *Ctx, r *Report) {
 	c06KindFilter(c, r)
 	c06Wrap(c, r)
 	c05SlotMergeAs(c, r, "R6.2")
-	r.assumption("quantity limits are enforced by the packet constructors (C01 R1.2); sort.Sort orders slots by address ascending (slotsSorter.Less compares .address with <)")
+	c06Comparator(c, r)
+	r.floor("R6.9", 1)
+	builderReadOnly(c, r, "R6.8")
+	r.floor("R6.8", 8)
+	r.assumption("quantity limits are enforced by the packet constructors (C01 R1.2); sort.Sort sorts by the comparator it is given (R6.9 decides that the comparator is the ascending order of the slot address)")
 }
 
 func c05SlotMergeAs(c *Ctx, r *Report, rule string) {
@@ -1534,5 +1542,205 @@ func c05Definitions(c *Ctx, r *Report) {
 	}
 	if n == 0 {
 		r.undecided("R5.10", "modbus.Builder", "no Builder method accepts field definitions", "-")
+	}
+}
+
+// builderReadOnly: building requests is read-only on the builder. (1) nothing reachable from a
+// request-building method (a method of Builder returning []BuilderRequest) writes memory derived
+// from the builder's field list — a store through an element pointer, an append or copy into a
+// slice sharing its backing array, a hand-over to code that may reorder it; (2) no such method
+// stores through its receiver or to package-level state (a cache of built requests would have to).
+// Either would make a second build on the same builder depend on the first.
+func builderReadOnly(c *Ctx, r *Report, rule string) {
+	sp := c.pkg("")
+	bt := sp.Type("Builder").Type().(*types.Named)
+	st := bt.Underlying().(*types.Struct)
+	var roots []*ssa.Function
+	for _, m := range methodsOf(c, "", "Builder") {
+		res := m.Signature.Results()
+		if res.Len() == 0 {
+			continue
+		}
+		if sl, ok := res.At(0).Type().Underlying().(*types.Slice); ok {
+			if n, ok := sl.Elem().(*types.Named); ok && n.Obj().Name() == "BuilderRequest" {
+				roots = append(roots, m)
+			}
+		}
+	}
+	if len(roots) == 0 {
+		r.undecided(rule, "modbus.Builder", "no request-building method (returning []BuilderRequest) found", "-")
+		return
+	}
+	sources := map[*types.Var]bool{}
+	var listT types.Type
+	for i := 0; i < st.NumFields(); i++ {
+		if _, ok := st.Field(i).Type().Underlying().(*types.Slice); ok {
+			sources[st.Field(i)] = true
+			listT = st.Field(i).Type()
+		}
+	}
+	seq := func(t types.Type) bool {
+		_, isSlice := t.Underlying().(*types.Slice)
+		return isSlice && listT != nil && types.Identical(t.Underlying(), listT.Underlying())
+	}
+	t := runTaint(c, roots, sources, seq, "the builder's field list")
+	r.instance(rule, len(roots))
+	seen := map[string]bool{}
+	for _, f := range t.findings {
+		if strings.HasPrefix(f.sig, "param-store:") {
+			// only state kept in the builder itself matters; objects the build creates (slot
+			// groups, batches) are modified through their own pointer receivers at will
+			inBuilder := false
+			for _, p := range f.fn.Params {
+				if strings.HasSuffix(f.sig, "."+p.Name()) && types.Identical(deref(p.Type()), bt) {
+					inBuilder = true
+				}
+			}
+			if !inBuilder {
+				continue
+			}
+		}
+		k := f.rule + f.sig + fnID(f.fn)
+		if seen[k] {
+			continue
+		}
+		seen[k] = true
+		r.funcs[fnID(f.fn)] = true
+		r.fail(rule, fnID(f.fn), f.what+" — a later build on the same builder no longer sees the fields as they were added", c.pos(f.pos), "", f.sig)
+	}
+	if len(seen) == 0 {
+		r.ok(rule, "modbus.Builder", fmt.Sprintf("the %d request-building methods (%d functions reachable) neither write the builder's field list nor keep state in the builder or in package-level variables", len(roots), len(t.funcs)), "-", true)
+	}
+}
+
+// c06Comparator: R6.9 — the batching loop walks the slots in the order sort.Sort leaves them in
+// and only ever extends a batch upwards, so the comparator handed to sort must be the ascending
+// numeric order of the slot address for all 65536 addresses: Less(i,j) implies
+// a[i].F <= a[j].F, and a[i].F < a[j].F implies Less(i,j), over the integers, for one unsigned
+// field F of the slot that the batching function itself reads (abstract interpretation of the
+// comparator with rule W on its narrow arithmetic; ties may be broken in any way).
+func c06Comparator(c *Ctx, r *Report) {
+	bt := c.fnMust("", "batchToRequests")
+	var less *ssa.Function
+	var sortCall ssa.Instruction
+	for _, b := range bt.Blocks {
+		for _, in := range b.Instrs {
+			call, ok := in.(*ssa.Call)
+			if !ok {
+				continue
+			}
+			sc := call.Common().StaticCallee()
+			if sc == nil || sc.Pkg == nil || sc.Pkg.Pkg.Path() != "sort" {
+				continue
+			}
+			switch sc.Name() {
+			case "Sort", "Stable":
+				if mi, ok := call.Common().Args[0].(*ssa.MakeInterface); ok {
+					ms := c.prog.MethodSets.MethodSet(mi.X.Type())
+					for i := 0; i < ms.Len(); i++ {
+						if ms.At(i).Obj().Name() == "Less" {
+							less, sortCall = c.prog.MethodValue(ms.At(i)), in
+						}
+					}
+				}
+			case "Slice", "SliceStable":
+				if mc, ok := call.Common().Args[1].(*ssa.MakeClosure); ok {
+					less, _ = mc.Fn.(*ssa.Function)
+					sortCall = in
+				}
+			}
+		}
+	}
+	r.instance("R6.9", 1)
+	id := fnID(bt)
+	if less == nil || less.Blocks == nil {
+		r.undecided("R6.9", id, "the batching function does not sort the slots with a comparator of this module (sort.Sort / sort.Slice)", c.pos(bt.Pos()))
+		return
+	}
+	id = fnID(less)
+	r.funcs[id] = true
+	an, fr := analyse(c, less)
+	_ = an
+	np := len(less.Params)
+	if np < 2 {
+		r.undecided("R6.9", id, "comparator without two index parameters", c.pos(less.Pos()))
+		return
+	}
+	ii, ok1 := fr.vals[less.Params[np-2]].(AInt)
+	jj, ok2 := fr.vals[less.Params[np-1]].(AInt)
+	// the sorted slice: the receiver, or the captured slice of a closure
+	var sl ASlice
+	okS := false
+	if np == 3 {
+		sl, okS = fr.vals[less.Params[0]].(ASlice)
+	} else if len(less.FreeVars) >= 1 {
+		sl, okS = fr.vals[less.FreeVars[0]].(ASlice)
+	}
+	if !ok1 || !ok2 || !okS {
+		r.undecided("R6.9", id, "comparator's slice or indices not interpretable", c.pos(less.Pos()))
+		return
+	}
+	st, isStruct := sl.elem.Underlying().(*types.Struct)
+	if !isStruct {
+		r.undecided("R6.9", id, "sorted elements are not structs", c.pos(less.Pos()))
+		return
+	}
+	// fields of the slot type that the batching function reads
+	readInBatch := map[int]bool{}
+	for _, b := range bt.Blocks {
+		for _, in := range b.Instrs {
+			switch x := in.(type) {
+			case *ssa.FieldAddr:
+				if types.Identical(deref(x.X.Type()), sl.elem) {
+					readInBatch[x.Field] = true
+				}
+			case *ssa.Field:
+				if types.Identical(x.X.Type(), sl.elem) {
+					readInBatch[x.Field] = true
+				}
+			}
+		}
+	}
+	okAny, detail := false, ""
+	for k := 0; k < st.NumFields(); k++ {
+		bb, isB := st.Field(k).Type().Underlying().(*types.Basic)
+		if !isB || bb.Info()&types.IsUnsigned == 0 || !readInBatch[k] {
+			continue
+		}
+		key := func(idx Aff) Aff {
+			v := an.u.symbolic(fmt.Sprintf("%s[%s]%s", sl.root.key, sl.off.add(idx).String(), pathStr("", k)), st.Field(k).Type())
+			return v.(AInt).a
+		}
+		xi, xj := key(ii.a), key(jj.a)
+		good := len(fr.returns) > 0
+		for _, rs := range fr.returns {
+			val, isBool := rs.vals[0].(ABool)
+			if !isBool {
+				good = false
+				continue
+			}
+			// true although a[i].F > a[j].F ?
+			for _, cj := range dnfAnd(rs.state, val.f.dnf(false)) {
+				if !infeasible(cj.with(atomGT(xi, xj))) {
+					good = false
+					detail = fmt.Sprintf("field %s: can report i before j although %s > %s: %s", st.Field(k).Name(), xi.String(), xj.String(), truncate(cj.String(), 200))
+				}
+			}
+			// false although a[i].F < a[j].F ?
+			for _, cj := range dnfAnd(rs.state, val.f.dnf(true)) {
+				if !infeasible(cj.with(atomLT(xi, xj))) {
+					good = false
+					detail = fmt.Sprintf("field %s: can deny i before j although %s < %s: %s", st.Field(k).Name(), xi.String(), xj.String(), truncate(cj.String(), 200))
+				}
+			}
+		}
+		if good {
+			okAny = true
+			r.ok("R6.9", id, "the comparator given to sort is the ascending numeric order of slot field "+st.Field(k).Name()+" (which the batching loop reads) for every pair of values", c.pos(sortCall.Pos()), true)
+			break
+		}
+	}
+	if !okAny {
+		r.fail("R6.9", id, "the comparator given to sort is not the ascending numeric order of the slot address for all values: the batching loop can meet a lower address after a higher one", c.pos(less.Pos()), detail, "comparator-not-ascending")
 	}
 }
